@@ -144,6 +144,30 @@ def run(ctx):
             hunt_one(d, t, base, o)
             if len(model_cases) < ctx.budget(150, 1500) and rng.random() < 0.3:
                 model_cases.append((o, d, t, base))
+    # ---- directed value shapes x both quotes (the quote option reaches every lexical class that is written quoted):
+    # hex colours with 3 / 6 / 8 digits in either letter case, strings with escapes and apostrophes, bindings,
+    # regexes, expressions with string operands, key-value blocks, repeated strings
+    directed = ['STYLE COLORRANGE "#0000ffaa" "#FF0000CC" DATARANGE 0 1 END', 'STYLE COLORRANGE "#00f" "#ff0000" DATARANGE 0 1 END', 'MAP IMAGECOLOR "#ff00aa80" END',
+                'LEGEND IMAGECOLOR "#FF00AACC" OUTLINECOLOR "#0f0" END', 'SCALEBAR COLOR "#ff00aacc" BACKGROUNDCOLOR "#abc" END', 'QUERYMAP COLOR "#ff00aacc" END',
+                "MAP NAME \"it's\" SHAPEPATH 'say \"x\"' END", 'LAYER TYPE POINT FILTER ("[name]" = "x y") CLASSITEM "n" END',
+                "LAYER TYPE POINT CLASS EXPRESSION /^a.b$/ END CLASS EXPRESSION 'abc' END END", 'MAP WEB METADATA "a b" "c d" \'e\' \'f\' END END END',
+                'LAYER TYPE POINT PROCESSING "A=1 2" PROCESSING \'B=x\' END', 'MAP PROJECTION "init=epsg:4326" END CONFIG "K" "v w" END']
+    default_o = dict(PrettyPrinterDefaults)
+    for t in directed:
+        try:
+            d = sweep.fast_loads(t)
+            base = rt.plain_all(sweep.fast_loads(default_pp.pprint(copy.deepcopy(d))))
+        except Exception:
+            continue
+        if rt.first_diff(rt.plain_all(d), base):
+            continue                 # C01's known findings
+        for q in ('"', "'"):
+            if rt.excluded(d, q):
+                continue
+            for extra in ({}, {"align_values": True}, {"indent": 0, "newlinechar": "\r\n"}):
+                o = dict(default_o, quote=q, **extra)
+                ctx.note_case(("directed", t, q, tuple(sorted(extra.items()))), nontrivial=True)
+                hunt_one(d, t, base, o)
     ctx.coverage["option_values_seen"] = len(seen_values)
     ctx.obligation("every value of every option exercised (9 indents, 2 spacers, 2 quotes, 3 newlines, 3 booleans)", len(seen_values) >= 9 + 2 + 2 + 3 + 6,
                    "%d values seen" % len(seen_values))
